@@ -22,13 +22,14 @@ import numpy as np
 from . import common
 
 PID = "C11"
+GCAP = 5      # largest iteration budget evaluated exactly over the Gaussian rationals
 
 # Genuine defects of the unchanged code (proposed entries for known_findings.json)
 PROPOSED_KNOWN = []   # both defects found while building this check were repaired in /repo:
 #   4fbea6d  FISTA.run in instalments restarted from z = x with a stale momentum t (z was a local of run)
 #   1f77362  normal_equations_inversion overwrote the caller's y for view-returning operators (in-place +=)
 
-MY_V = ["Solvers/Drivers.v", "State/Heap.v", "Solvers/DriversInst.v", "Corr/CheckC11.v"]
+MY_V = ["Solvers/Drivers.v", "State/Heap.v", "Solvers/DriversInst.v", "Solvers/DriversGauss.v", "Corr/CheckC11.v"]
 TOL = 1e-12
 ITER = ["cg", "cgls", "lsqr", "ista", "fista", "omp"]
 REST = ["irls", "splitbregman", "nei", "ri", "pi"]
@@ -379,18 +380,20 @@ def check_drive(case, emit=None):
                 probs.append(problem("alias:" + f, "%s: solver field %s shares memory with the caller's %s after setup"
                                      % (solver, f, "y" if ay else "x0"), case))
         xs, oks = [ref.current_x()], [ref.ok()]
+        kolds = [float(np.real(getattr(ref.s, "kold", np.nan)))]
         with np.errstate(all="ignore"):
             for _ in range(N):
                 ref.step()
                 xs.append(ref.current_x())
                 oks.append(ref.ok())
+                kolds.append(float(np.real(getattr(ref.s, "kold", np.nan))))
         intact("step")
         alN = ref.aliases()
         ref_cost = np.array(ref.s.cost, dtype=float)
         # style 3b: the program
         d = Driver(solver, Op, y, x0, N, par)
         d.setup()
-        iiters = []
+        iiters, xcalls = [], []
         with np.errstate(all="ignore"):
             for c in prog:
                 if c[0] == "S":
@@ -398,6 +401,7 @@ def check_drive(case, emit=None):
                 else:
                     d.run(c[1])
                 iiters.append(int(d.s.iiter))
+                xcalls.append(d.current_x())
                 intact("call %s of the driving program" % c)
                 for f, (ay, ax0) in zip(FIELDS[solver], d.aliases()):
                     if f != "y" and (ay or ax0):
@@ -434,7 +438,8 @@ def check_drive(case, emit=None):
     full = None
     if f == fsolve:
         full = first_diff(out_c, out_p)
-    rec = {"iiters": iiters, "oks": oks, "same": bool(same), "f": f, "fsolve": fsolve, "full": full,
+    rec = {"xcalls": xcalls, "kolds": kolds, "out_f": out_f, "out_c": out_c, "out_m": out_m,
+           "iiters": iiters, "oks": oks, "same": bool(same), "f": f, "fsolve": fsolve, "full": full,
            "al0": al0, "alN": alN, "out_p": out_p, "xs": xs, "nontrivial": bool(np.any(np.abs(xs[-1] - xs[0]) > 0))}
     return probs, rec
 
@@ -1082,8 +1087,8 @@ def main(tier):
     nprog = 4 if quick else 7
     wd = common.workdir(PID)
     allprobs = []
-    hcases, ncases, acases = [], [], []
-    hmeta, nmeta = {}, {}
+    hcases, ncases, acases, gcases = [], [], [], []
+    hmeta, nmeta, gmeta = {}, {}, {}
     counts = {"drive": 0, "rest": 0, "nd": 0, "exc": 0, "kw": 0}
     dist = {}
     nontriv = set()
@@ -1097,6 +1102,10 @@ def main(tier):
                 for isys in range(nsys):
                     r = common.rng(PID, "sys", solver, cplx, isys)
                     sysd = gen_system(r, solver, cplx)
+                    if solver == "cgls":
+                        sysd["par"]["damp"] = 0.5 if isys % 2 == 0 else 0.0     # damped and undamped systems in every tier
+                        if isys == 0 and sysd["x0"] is None:
+                            sysd["x0"] = enc(rint(r, (len(dec(sysd["A"], cplx)[0]),), cplx, -2, 2))
                     n = len(sysd["x0"]["v"]) if sysd["x0"] else len(dec(sysd["A"], cplx)[0])
                     N = r.randint(3, n + 1) if solver in ("ista", "fista") else r.randint(2, n)
                     N = max(N, 2)
@@ -1165,6 +1174,37 @@ def main(tier):
                                               common.qlit(par.get("alpha", 0)), common.qlit(par.get("eps", 0)), common.qlit(par.get("tol", 0)),
                                               prog_coq(prog), common.vlit(rec["out_p"][0]), rec["f"],
                                               common.vlit([float(t) for t in rec["out_p"][-1]])))
+                        # complex CG / CGLS: the CG.v / CGLS.v step functions over the Gaussian rationals, driven by
+                        # the same program; iterate + counter after EVERY call, cost history, istop.  Exact rationals
+                        # grow fast: only budgets <= GCAP are evaluated; runs that converge (numerically) exactly
+                        # inside the budget are skipped (kold = 0 exactly in the model, ~1e-30 in floating point)
+                        if cplx and solver in ("cg", "cgls") and N <= GCAP:
+                            k0 = max(rec["kolds"][0], 1e-300)
+                            degenerate = any((not np.isfinite(k)) or k <= 1e-20 * k0 for k in rec["kolds"][:N]) or \
+                                not all(np.all(np.isfinite(x_)) for x_ in rec["xcalls"])
+                            if degenerate:
+                                dist["complex exact: skipped (converged inside budget)"] = dist.get("complex exact: skipped (converged inside budget)", 0) + 1
+                            else:
+                                styles = [("program", prog, rec["xcalls"], rec["iiters"], rec["out_p"])]
+                                if ip == 0:
+                                    for nm_, o_ in (("function", rec["out_f"]), ("solve", rec["out_c"]), ("manual", rec["out_m"])):
+                                        itn = int(o_[1] if solver == "cg" else o_[2])
+                                        styles.append((nm_, [["R", N]], [np.asarray(o_[0])], [itn], o_))
+                                for nm_, pg_, xs_, its_, o_ in styles:
+                                    gid = len(gcases) + 1
+                                    gmeta[gid] = (case, rec, nm_)
+                                    A_ = dec(sysd["A"], True)
+                                    x0_ = dec(sysd["x0"], True)
+                                    gcases.append("{| g_id := %d%%nat; g_kind := %d%%nat; g_A := %s; g_n := %d%%nat; g_y := %s; g_x0 := %s; "
+                                                  "g_damp := %s; g_tol := %s; g_prog := %s; g_xs := [%s]; g_iiters := %s; g_cost := %s; g_istop := %d%%nat |}" % (
+                                                      gid, 0 if solver == "cg" else 1, common.mlit(A_, True), A_.shape[1],
+                                                      common.vlit(dec(sysd["y"], True), True),
+                                                      "None" if x0_ is None else "(Some %s)" % common.vlit(x0_, True),
+                                                      common.qlit(sysd["par"].get("damp", 0.0)), common.qlit(sysd["par"]["tol"]), prog_coq(pg_),
+                                                      "; ".join(common.vlit(x_, True) for x_ in xs_), common.natlist(its_),
+                                                      common.vlit([float(t) for t in np.asarray(o_[-1], dtype=float)]),
+                                                      int(o_[1]) if solver == "cgls" else 0))
+                                    dist["complex exact: " + nm_] = dist.get("complex exact: " + nm_, 0) + 1
                         # alias maps vs the heap model (after setup and after N steps)
                         if ip == 0:
                             for k, obs in ((0, rec["al0"]), (N, rec["alN"])):
@@ -1328,6 +1368,13 @@ def main(tier):
     per = max(1, (len(ncases) + 15) // 16)
     for k, ch in enumerate(common.shard(ncases, per)):
         files["num_%d" % k] = hdr + "Definition cases : list ncase := [\n" + ";\n".join(ch) + "].\nEval vm_compute in (run_cases n_id ncheck cases).\n"
+    gcases.append("{| g_id := 9999%nat; g_kind := 0%nat; g_A := [[((qz 4), z0); ((qz 1), (qz 1))]; [((qz 1), (qz (-1))); ((qz 3), z0)]]; g_n := 2%nat; "
+                  "g_y := [((qz 2), (qz 1)); ((qz 1), (qz (-2)))]; g_x0 := None; g_damp := z0; g_tol := z0; g_prog := [Run 2%nat]; "
+                  "g_xs := [[((qz 1), z0); (z0, (qz 1))]]; g_iiters := [2%nat]; g_cost := [z0; z0; z0]; g_istop := 0%nat |}")
+    perg = max(1, (len(gcases) + 15) // 16)
+    for k, ch in enumerate(common.shard(gcases, perg)):
+        files["gauss_%d" % k] = hdr.replace("CheckC11.", "GaussQc GaussField CheckC11.") + \
+            "Definition cases : list gcase := [\n" + ";\n".join(ch) + "].\nEval vm_compute in (run_cases g_id gcheck cases).\n"
     alines = ["{| a_id := %d%%nat; a_solver := %d%%nat; a_x0given := %s; a_view := %s; a_steps := %d%%nat; a_obs := [%s] |}" % (
         i, ACODE[s], "true" if g_ else "false", "true" if v else "false", k,
         "; ".join("(%s, %s)" % ("true" if a else "false", "true" if b else "false") for a, b in obs))
@@ -1338,10 +1385,12 @@ def main(tier):
     for nme, txt in files.items():
         open(os.path.join(wd, nme + ".v"), "w").write(txt)
     outs = common.run_coq_files(wd, sorted(files))
-    hfail, nfail, afail = {}, {}, {}
+    hfail, nfail, afail, gfail = {}, {}, {}, {}
     for nme, o in outs.items():
         res = common.parse_failing(o)
-        (hfail if nme.startswith("hist") else nfail if nme.startswith("num") else afail).update(res)
+        (hfail if nme.startswith("hist") else nfail if nme.startswith("num") else gfail if nme.startswith("gauss") else afail).update(res)
+    if 4 not in gfail.pop(9999, []):
+        raise RuntimeError("C11 complex canary case was not reported as failing: the Coq comparison pipeline is broken")
     if 1 not in hfail.pop(9999, []) or 3 not in hfail.pop(9998, []) or 4 not in nfail.pop(9999, []) or 6 not in afail.pop(9999, []):
         raise RuntimeError("C11 canary cases were not reported as failing: the Coq comparison pipeline is broken")
 
@@ -1361,6 +1410,13 @@ def main(tier):
         if not mine:
             allprobs.append(problem("numeric-model", "%s: implementation result of program %s differs from the exact model run "
                                     "(codes %s; Corr.CheckC11.ncheck)" % (case["sys"]["solver"], case["prog"], codes), case, no_input=True))
+    for gid, codes in gfail.items():
+        case, rec, nm_ = gmeta[gid]
+        mine = [p for p in allprobs if p["case"] is case]
+        if not mine:
+            allprobs.append(problem("complex-model", "%s (complex, style %s, program %s): iterates / counter / cost of the implementation differ "
+                                    "from the exact CG.v/CGLS.v model run over the Gaussian rationals (codes %s; Corr.CheckC11.gcheck)"
+                                    % (case["sys"]["solver"], nm_, case["prog"] if nm_ == "program" else [["R", case["N"]]], codes), case, no_input=True))
     for (i, s, g_, v, k, obs, case) in acases:
         if i in afail:
             mine = [p for p in allprobs if p["case"] is case and p["key"].startswith(("alias", "input"))]
@@ -1392,12 +1448,13 @@ def main(tier):
                 p = dict(p, what=p["what"] + " [shrunk driving program in the replay: %s]" % c2["prog"])
                 case = c2
         R.violation(p["what"], {"case": case, "key": p["key"], "trace": p.get("trace")}, no_input=bool(p.get("no_input")))
-    nh, nn, na = len(hcases) - 2, len(ncases) - 1, len(acases)
+    nh, nn, na, ng = len(hcases) - 2, len(ncases) - 1, len(acases), len(gcases) - 1
     R.cov.update(
-        obligations=len(thms) + nh + nn + na,
-        discharged=len(thms) + (nh - len(hfail)) + (nn - len(nfail)) + (na - len(afail)),
+        obligations=len(thms) + nh + nn + na + ng,
+        discharged=len(thms) + (nh - len(hfail)) + (nn - len(nfail)) + (na - len(afail)) + (ng - len(gfail)),
+        complex_exact_cases=ng,
         checker_cmd="make -C coq + coqc Solvers/Drivers.v State/Heap.v Solvers/DriversInst.v Corr/CheckC11.v Props/C11.v "
-                    "(Print Assumptions) + coqc .work/C11/{hist,num,alias}_*.v (vm_compute: model prediction vs implementation)",
+                    "(Print Assumptions) + coqc .work/C11/{hist,num,gauss,alias}_*.v (vm_compute: model prediction vs implementation)",
         theorems=thms, axioms_reported=axioms, evaluations=evals, distinct_nontrivial=len(nontriv),
         rule="per solver x {real, complex} x system (integer / Gaussian-integer well-conditioned matrices, n=3..5, half of them "
              "with a stopping threshold placed inside the budget) x driving program (budget split into <= 4 pieces of Step / Run): "
